@@ -5,7 +5,8 @@ Driver of C11. One request per line, `<mode>` is `j` (JSON constants) or `p` (Py
 `<value>` is a postfix program:
 
   `s:<cps>` string   `i:<int>` int   `n:<cps>` float (its `str()` text)   `T` `F` `Z` true/false/none
-  `l:<k>` list of the last k values   `d:<k>` dict of the last k (string, value) pairs
+  `l:<k>` list of the last k values   `d:<k>` dict of the last k (key, value) pairs (key: `s:`, `i:`, T/F/Z)
+  `r:<k>` the k-th container completed so far, once more (a shared object)
 
   pp|ps|pa <mode> <value>   text of the printed value (whole text, `str()`, text after an iteration) -> ok <cps>
   pc|pw <mode> <value>      the same text, obtained with colours on and stripped / through PPWrap (diagnostic)
@@ -20,30 +21,48 @@ open Ak Ak.Proto PPrint
 def popN {α} (n : Nat) (st : List α) : Option (List α × List α) :=
   if n ≤ st.length then some ((st.take n).reverse, st.drop n) else none
 
-def pairUp : List J → Option (List (List Char × J))
-  | [] => some []
-  | .str k :: v :: r => (pairUp r).map ((k, v) :: ·)
+def keyOfJ : J → Option Key
+  | .str s => some (.str s)
+  | .int n => some (.int n)
+  | .kw k => some (.kw k)
   | _ => none
 
-def stepTok (st : List J) (tok : String) : Option (List J) :=
+def pairUp : List J → Option (List (Key × J))
+  | [] => some []
+  | k :: v :: r =>
+    match keyOfJ k, pairUp r with
+    | some key, some rest => some ((key, v) :: rest)
+    | _, _ => none
+  | _ => none
+
+/-- state of the value builder: the stack, and the containers completed so far (a later `r:<k>`
+pushes the k-th of them again: the same object in Python, an equal value here) -/
+abbrev BState := List J × List J
+
+def stepTok (stb : BState) (tok : String) : Option BState :=
+  let (st, built) := stb
   match tok.splitOn ":" with
-  | ["s", cps] => (parseCps cps).map fun s => J.str s :: st
-  | ["n", cps] => (parseCps cps).map fun s => J.num s :: st
-  | ["i", n] => (parseInt n).map fun k => J.int k :: st
-  | ["T"] => some (J.kw .tt :: st)
-  | ["F"] => some (J.kw .ff :: st)
-  | ["Z"] => some (J.kw .nul :: st)
+  | ["s", cps] => (parseCps cps).map fun s => (J.str s :: st, built)
+  | ["n", cps] => (parseCps cps).map fun s => (J.num s :: st, built)
+  | ["i", n] => (parseInt n).map fun k => (J.int k :: st, built)
+  | ["T"] => some (J.kw .tt :: st, built)
+  | ["F"] => some (J.kw .ff :: st, built)
+  | ["Z"] => some (J.kw .nul :: st, built)
   | ["l", n] => do
     let (items, rest) ← popN (← n.toNat?) st
-    some (J.list items :: rest)
+    some (J.list items :: rest, built ++ [J.list items])
   | ["d", n] => do
     let (items, rest) ← popN (2 * (← n.toNat?)) st
-    some (J.dict (← pairUp items) :: rest)
+    let d := J.dict (← pairUp items)
+    some (d :: rest, built ++ [d])
+  | ["r", k] => do
+    let v ← built[← k.toNat?]?
+    some (v :: st, built)
   | _ => none
 
 def parseValue (toks : List String) : Option J :=
-  match toks.foldlM stepTok [] with
-  | some [v] => some v
+  match toks.foldlM stepTok ([], []) with
+  | some ([v], _) => some v
   | _ => none
 
 def constsOf (m : String) : Option Consts :=
@@ -68,9 +87,13 @@ def showJ : J → List String
 def showJs : List J → List String
   | [] => []
   | x :: xs => showJ x ++ showJs xs
-def showKvs : List (List Char × J) → List String
+def showKvs : List (Key × J) → List String
   | [] => []
-  | (k, v) :: r => ("s:" ++ showCps k) :: (showJ v ++ showKvs r)
+  | (.str k, v) :: r => ("s:" ++ showCps k) :: (showJ v ++ showKvs r)
+  | (.int n, v) :: r => ("i:" ++ toString n) :: (showJ v ++ showKvs r)
+  | (.kw .tt, v) :: r => "T" :: (showJ v ++ showKvs r)
+  | (.kw .ff, v) :: r => "F" :: (showJ v ++ showKvs r)
+  | (.kw .nul, v) :: r => "Z" :: (showJ v ++ showKvs r)
 end
 
 def handle (line : String) : String :=
@@ -78,7 +101,7 @@ def handle (line : String) : String :=
   | "gen" :: m :: off :: val =>
     match constsOf m, off.toNat?, parseValue val with
     | some c, some o, some v =>
-      if wfB v then "ok " ++ showChunks (gen c limits v o) else "out-of-domain"
+      if wfB c.strKeys v then "ok " ++ showChunks (gen c limits v o) else "out-of-domain"
     | _, _, _ => "bad-op"
   | ["rd", m, cps] =>
     match constsOf m, parseCps cps with
@@ -91,7 +114,7 @@ def handle (line : String) : String :=
     match constsOf m, parseValue val with
     | some c, some v =>
       -- the model is a pure function: every way of consuming the result sees the same text / lines
-      if !wfB v then "out-of-domain"     -- the hypothesis `WF` of the theorems, checked on every request
+      if !wfB c.strKeys v then "out-of-domain"     -- the hypothesis `WF` of the theorems, checked on every request
       else if op = "pp" || op = "ps" || op = "pa" || op = "pc" || op = "pw" then "ok " ++ showCps (text (gen c limits v 0))
       else if op = "ln" || op = "lc" || op = "lr" || op = "l2" || op = "li" || op = "lp" || op = "lz" then
         "ok " ++ "|".intercalate ((groupLines (gen c limits v 0)).map fun l => showCps (lineText l))
